@@ -12,7 +12,12 @@ def life_key(formula, line, i):
     if i == 0:
         return "%s:%s" % (formula, "late-sends" if e["lateSends"] else "goroutines")
     r = e["results"][i - 1]
-    return "%s:%s%s" % (formula, r["what"], ":held@" + r["gate"] if r["role"] == "held" and formula == "C20_Timeout" else "")
+    extra = ""
+    if formula == "C20_Timeout" and r["role"] == "held":
+        extra = ":held@" + r["gate"]
+    if formula == "C20_NeverSignalled":
+        extra = ":leaving" if r.get("leaving") else ":not-leaving"
+    return "%s:%s%s" % (formula, r["what"], extra)
 
 
 def life_stage(work, res, tier, prefixes, replay=None):
@@ -63,7 +68,7 @@ def life_stage(work, res, tier, prefixes, replay=None):
                    "results": [{"what": "process", "role": "whole", "gate": "", "res": "panic" if why != "deadlock" else "blocked",
                                 "err": (first[0] if first else why)[:160], "tookMs": 0, "timeoutMs": 0, "mayPanic": False,
                                 "parked": False, "parkedMs": 0, "waited": False, "signalable": False, "afterShutdown": False,
-                                "repeat": False, "nodeOps": 0, "stage": "?", "selfAfter": "?", "peerAlive": False}]}
+                                "repeat": False, "nodeOps": 0, "stage": "?", "selfAfter": "?", "peerAlive": False, "leaving": False}]}
             with open(os.path.join(d, "t%d.ndjson" % p["i"]), "a") as fh:
                 fh.write(json.dumps(rec) + "\n")
             log("lifecycle harness shard %d died on schedule %d (%s); resuming" % (p["i"], case, rec["results"][0]["err"]))
